@@ -54,6 +54,8 @@ class ContractDef:
         self.no_crosscheck = opts.pop('no_crosscheck', False)
         # native_only: the clauses are evaluated on sampled native runs only (run-time contract check) - a bounded stand-in, never 'proved'
         self.native_only = opts.pop('native_only', False)
+        # native_runs=(quick, thorough): cap on the sampled native runs of a native_only contract whose single run is expensive
+        self.native_runs = opts.pop('native_runs', None)
         self.rng_calls = opts.pop('rng_calls', None)
         # values for which `x == literal` tests on symbolic x are assumed false (excluded inputs, listed in the evidence)
         self.skip_eq_literals = tuple(Fraction(v) for v in opts.pop('skip_eq_literals', ()))
@@ -973,6 +975,8 @@ def verify_contract(cdef, tier='quick', seed=0, refuted=None):
     if cdef.native_only:
         # bounded stand-in: no symbolic run; every clause is evaluated on n sampled native executions of the real code
         n = int(os.environ.get('VERIF_CROSS', '25' if tier == 'quick' else '400'))
+        if cdef.native_runs:
+            n = min(n, cdef.native_runs[0 if tier == 'quick' else 1])
         cc = crosscheck(cdef, n, seed)
         out['bounded'] = (cdef.bounded or '') + " [native sampling only: %d runs, seed %s]" % (cc['runs'], seed)
         for name, cnt in cc['clauses'].items():
